@@ -359,10 +359,19 @@ def execute(trace, ctx):
                 k = cand[op["pick"] % len(cand)]
                 o = M.objs[k]
                 # views created from this molecule share its topology object but are the same cells
-                if rng.random() < 0.5:
+                form = rng.random()
+                if form < 0.3:
                     new = "X%03d" % rng.randint(0, 999)
                     o["obj"].resnames = new
                     exp = {c: {"resname": new} for c in o["cells"]}
+                elif form < 0.55:
+                    # one name per residue (list form); names stay pairwise distinct so that residues do not merge
+                    per = [len(r) for r in o["obj"].residues]
+                    names = ["L%d%s" % (rng.randint(0, 99), chr(65 + k % 26)) for k in range(len(per))]
+                    o["obj"].resnames = list(names)
+                    vals = [x for x, m_ in zip(names, per) for _ in range(m_)]
+                    exp = {c: {"resname": vals[j]} for j, c in enumerate(o["cells"])}
+                    ctx.probe("resnames_list_form")
                 else:
                     j = rng.randrange(len(o["cells"]))
                     new = "Q%d" % rng.randint(0, 99)
